@@ -179,7 +179,7 @@ func TestC03(t *testing.T) {
 	rec := ev.New("C03", "exploration", "boundary-directed: for each product, oracle price pair and debt size the collateral amount that makes the exact ratio equal to the minimum is solved with rationals and create/withdraw/draw/deposit-and-draw are attempted at boundary-1, boundary, boundary+1, after 0..3 interest accruals; debt floor and ceiling boundaries likewise; prices toggled inactive; plus the mixed workload. distinct = (op, product, price, interest present, magnitude classes)")
 	defer finish(t, rec)
 	rnd := rng("C03")
-	rounds := ev.Pick(3, 14)
+	rounds := ev.Pick(6, 20)
 	for round := 0; round < rounds; round++ {
 		variant := ev.ShardNo()*rounds + round
 		u := newCDP(t, cdpOpts{variant: variant})
@@ -187,7 +187,7 @@ func TestC03(t *testing.T) {
 		r := newCdpRunner(u, rnd, rec, cdpCfg{}, mon)
 		c := u.c
 		prices := []uint64{1, 7, 999_999, 1_000_000, 3_333_333, 123_456_789, 30_000_000_000, 1 << 40}
-		cases := ev.Pick(60, 110)
+		cases := ev.Pick(120, 300)
 		for i := 0; i < cases && !r.panicked; i++ {
 			var p *uProduct
 			for p == nil || p.P.IsStableMintVault {
@@ -305,15 +305,35 @@ func TestC03(t *testing.T) {
 				}
 			case 3: // deposit-and-draw, sometimes with an inactive price
 				inactive := rnd.Intn(3) == 0
+				// the feed that goes down: the collateral's, or (for products whose debt is priced by the oracle) the debt asset's
+				down, downPx := p.In, pin
+				if p.P.AssetOutOraclePrice && rnd.Intn(2) == 0 {
+					down = p.Out
+					downPx, _ = u.price(p.Out)
+				}
 				if inactive {
-					r.env("price-inactive", p.In.Denom, func() { u.setPrice(p.In.Denom, pin, false) })
+					r.env("price-inactive", down.Denom, func() { u.setPrice(down.Denom, downPx, false) })
 				}
 				amt := sdk.NewIntFromBigInt(new(big.Int).Quo(v.AmountIn.BigInt(), big.NewInt(int64(1+rnd.Intn(10)))))
 				r.tx("vault_deposit_draw", a, &vaulttypes.MsgDepositAndDrawRequest{From: a.Addr.String(), AppId: v.AppId, ExtendedPairVaultId: p.ID, UserVaultId: v.Id, Amount: amt}, fmt.Sprintf("vault=%d amt=%s inactive=%v", v.Id, amt, inactive))
 				if inactive {
 					r.tx("vault_draw", a, &vaulttypes.MsgDrawRequest{From: a.Addr.String(), AppId: v.AppId, ExtendedPairVaultId: p.ID, UserVaultId: v.Id, Amount: sdk.NewInt(1)}, "inactive price")
 					r.tx("vault_withdraw", a, &vaulttypes.MsgWithdrawRequest{From: a.Addr.String(), AppId: v.AppId, ExtendedPairVaultId: p.ID, UserVaultId: v.Id, Amount: sdk.NewInt(1)}, "inactive price")
-					r.env("price-active", p.In.Denom, func() { u.setPrice(p.In.Denom, pin, true) })
+					// opening a new vault in the product needs the same prices
+					for _, b := range c.Accts {
+						has := false
+						for _, x := range r.last.Vaults {
+							if x.Owner == b.Addr.String() && x.ExtendedPairVaultID == p.ID {
+								has = true
+							}
+						}
+						if !has {
+							d2 := p.P.DebtFloor.MulRaw(int64(2 + rnd.Intn(20)))
+							r.tx("vault_create", b, &vaulttypes.MsgCreateRequest{From: b.Addr.String(), AppId: p.App, ExtendedPairVaultId: p.ID, AmountIn: r.collateralFor(p, d2, p.P.MinCr.MulInt64(1000).TruncateInt64()*2), AmountOut: d2}, "inactive price "+down.Denom)
+							break
+						}
+					}
+					r.env("price-active", down.Denom, func() { u.setPrice(down.Denom, downPx, true) })
 				}
 			}
 			if i%10 == 9 {
@@ -335,7 +355,7 @@ func TestC03(t *testing.T) {
 		}
 		// and a stretch of the mixed workload under the same monitor
 		r.cfg = cdpCfg{maxGap: 400 * 24 * time.Hour}
-		r.run(ev.Pick(250, 1500))
+		r.run(ev.Pick(600, 3000))
 		if round == 0 {
 			rec.Sample(map[string]interface{}{"variant": variant, "oplog_tail": r.tail(14)})
 		}
